@@ -12,8 +12,8 @@ by its index; an `Output(parent, name)` is a `Ref = (index, name)`.  Transformer
 objects write them to an output store (`List Node`, again topologically ordered: a node is appended
 when the Python object is created or, for the in-place transformers, when it is rewritten).
 
-Names are `List Char` (the property is about strings: `str.lstrip`), payloads are interned to `Nat`
-by the harness (0 = `None`).  Python exceptions are `Except Err`.
+Names are `List Char` (the property is about strings: `str.lstrip`), payloads are interned by the
+harness (`atom 0` = `None`); `fused` is the payload a fusion callback builds from two payloads.  Python exceptions are `Except Err`.
 -/
 namespace EkwVerif.Graph
 
@@ -21,10 +21,21 @@ abbrev Name := List Char
 /-- `Output(parent, name)`: index of the parent node and the output name. -/
 abbrev Ref := Nat × Name
 
+/-- Payloads: opaque atoms (interned by the harness), and the payload of a node obtained by fusing
+a child (payload `child`) with the parent (payload `parent`, input names `pins`, outputs `pouts`)
+that feeds its input `cin` from output `pout`. -/
+inductive Payload where
+  | atom (n : Nat)
+  | fused (child : Payload) (cin : Name) (parent : Payload) (pout : Name) (pins : List Name) (pouts : List Name)
+deriving DecidableEq, Repr
+
+instance : OfNat Payload n := ⟨.atom n⟩
+instance : Inhabited Payload := ⟨.atom 0⟩
+
 structure Node where
   name : Name
   outputs : List Name
-  payload : Nat
+  payload : Payload
   inputs : List (Name × Ref)          -- dict input name ↦ Output, in dict (insertion) order
 deriving DecidableEq, Repr
 
@@ -34,8 +45,8 @@ def Node.isProcessor (n : Node) : Bool := !n.isSink && !n.isSource
 
 /-- `Node.DEFAULT_OUTPUT = "0"` -/
 def defaultOutput : Name := ['0']
-/-- payload id of Python's `None` -/
-def nonePayload : Nat := 0
+/-- payload of Python's `None` -/
+def nonePayload : Payload := .atom 0
 
 structure Graph where
   nodes : List Node
@@ -56,7 +67,7 @@ deriving DecidableEq, Repr
 the output name and the term of the parent it is connected to.  Node names do not occur; the
 inputs are a function of the input NAME (a Python dict: the order of the inputs is immaterial). -/
 inductive Term where
-  | app (payload : Nat) (outputs : List Name) (ins : Name → Option (Name × Term))
+  | app (payload : Payload) (outputs : List Name) (ins : Name → Option (Name × Term))
 
 /-- Term of a node given the terms of all earlier nodes. -/
 def termOf (acc : List Term) (n : Node) : Term :=
@@ -368,5 +379,203 @@ def lstripChars (s chars : Name) : Name := s.dropWhile fun c => chars.contains c
 
 /-- Python `str.removeprefix(p)` -/
 def removePrefix (s p : Name) : Name := if p.isPrefixOf s then s.drop p.length else s
+
+/-! ## expand.py -/
+
+/-- What the `expand` callback returns for a node it wants replaced: the sub-graph, `input_map`
+(source name ↦ name of an input of the expanded node) and `output_map` (output name ↦ sink name).
+A bare `Graph` is `(graph, None, None)`. -/
+structure Expansion where
+  sub : Graph
+  inputMap : Option (List (Name × Name))
+  outputMap : Option (List (Name × Name))
+deriving Repr
+
+/-- `_Subgraph`: what replaces an expanded node during the traversal. -/
+structure Subgraph where
+  name : Name
+  leaves : List (Name × Nat)          -- dict sink name ↦ transformed sink (store index), insertion order
+  outputMap : List (Name × Name)      -- `Splicer.outputs`: output of the expanded node ↦ sink name
+  innerSinks : List Nat
+deriving Repr
+
+/-- attributes of a `Splicer` -/
+structure SplicerCfg where
+  name : Name
+  inputs : List (Name × Ref)          -- source name ↦ Output it is to be connected to
+  outputs : List (Name × Name)        -- output name ↦ sink name
+
+/-- `f"{self.name}."` -/
+def prefixOf (name : Name) : Name := name ++ ['.']
+/-- `f"{self.name}.{s.name}"` -/
+def prefixed (name nm : Name) : Name := prefixOf name ++ nm
+
+def mapValues (m : List (Name × Name)) : List Name := m.map (·.2)
+
+/-- `Splicer.__init__`: `KeyError` if the input map names an input the node does not have. -/
+def splicerInit (name : Name) (inputs : List (Name × Ref)) (inputMap : Option (List (Name × Name)))
+    (outputs : List Name) (outputMap : Option (List (Name × Name))) : Except Err SplicerCfg :=
+  let outs : List (Name × Name) :=
+    match outputMap with
+    | none => outputs.map fun o => (o, o)
+    | some om => outputs.map fun o => (o, (om.lookup o).getD o)
+  match inputMap with
+  | none => .ok { name := name, inputs := inputs, outputs := outs }
+  | some im =>
+    match mapE (fun (x : Name × Name) => match inputs.lookup x.2 with
+                                         | none => Except.error Err.keyError
+                                         | some r => .ok (x.1, r)) im with
+    | .error e => .error e
+    | .ok ins => .ok { name := name, inputs := ins, outputs := outs }
+
+/-- `Splicer` (default `splice_source` / `splice_sink`), writing into the store of the enclosing
+`_Expander`. -/
+def splicer (c : SplicerCfg) : Transformer (List Node) Nat Ref where
+  source := some fun out n =>
+    match c.inputs.lookup n.name with
+    | none => .ok (out ++ [{ n with name := prefixed c.name n.name }], out.length)
+    | some r => .ok (out ++ [{ name := prefixed c.name n.name, outputs := n.outputs, payload := n.payload,
+                               inputs := [(inputName, r)] }], out.length)
+  processor := some fun out n ins =>
+    .ok (out ++ [{ n with name := prefixed c.name n.name, inputs := ins }], out.length)
+  sink := some fun out n ins =>
+    if (mapValues c.outputs).contains n.name then
+      .ok (out ++ [{ name := prefixed c.name n.name, outputs := [defaultOutput], payload := n.payload, inputs := ins }],
+           out.length)
+    else .ok (out ++ [{ n with name := prefixed c.name n.name, inputs := ins }], out.length)
+  output := nodeOutput
+
+/-- `d[k] = v` on a dict kept as an association list in insertion order -/
+def dictSet : List (Name × Nat) → Name → Nat → List (Name × Nat)
+  | [], k, v => [(k, v)]
+  | (k', v') :: rest, k, v => if k' == k then (k', v) :: rest else (k', v') :: dictSet rest k v
+
+/-- the loop of `Splicer.graph` (uses `removeprefix`, see the `fix:` commit; `lstrip` before) -/
+def spliceLeaves (c : SplicerCfg) (out : List Node) : List Nat → List (Name × Nat) × List Nat → List (Name × Nat) × List Nat
+  | [], acc => acc
+  | t :: rest, acc =>
+    let sname := removePrefix (nameAt out t) (prefixOf c.name)
+    if (mapValues c.outputs).contains sname then spliceLeaves c out rest (dictSet acc.1 sname t, acc.2)
+    else spliceLeaves c out rest (acc.1, acc.2 ++ [t])
+
+/-- `Splicer.graph` -/
+def splicerFin (c : SplicerCfg) (out : List Node) (sinks : List Nat) : Except Err (List Node × Subgraph) :=
+  let r := spliceLeaves c out sinks ([], [])
+  .ok (out, { name := c.name, leaves := r.1, outputMap := c.outputs, innerSinks := r.2 })
+
+/-- transformed node of `_Expander`: a `Node` or a `_Subgraph` -/
+inductive XNode
+  | node (i : Nat)
+  | sub (s : Subgraph)
+deriving Repr
+
+/-- `_Subgraph.get_output(name)` -/
+def subgraphOutput (out : List Node) (sg : Subgraph) (o : Name) : Except Err Ref :=
+  match sg.outputMap.lookup o with
+  | none => .error .noOutput
+  | some lname =>
+    match sg.leaves.lookup lname with
+    | none => .error .noOutput
+    | some t => nodeOutput out t defaultOutput        -- `self.leaves[lname].get_output()`
+
+/-- `_Expander.node` -/
+def expandNode (ex : Node → Option Expansion) (out : List Node) (n : Node) (ins : List (Name × Ref)) :
+    Except Err (List Node × XNode) :=
+  match ex n with
+  | none => .ok (out ++ [{ n with inputs := ins }], .node out.length)
+  | some e =>
+    match splicerInit n.name ins e.inputMap n.outputs e.outputMap with
+    | .error err => .error err
+    | .ok c =>
+      match transform (splicer c) (splicerFin c) out e.sub with
+      | .error err => .error err
+      | .ok r => .ok (r.1, .sub r.2)
+
+def expander (ex : Node → Option Expansion) : Transformer (List Node) XNode Ref where
+  node := some (expandNode ex)
+  output := fun out t o =>
+    match t with
+    | .node i => nodeOutput out i o
+    | .sub sg => subgraphOutput out sg o
+
+/-- `_Expander.graph`: plain nodes stay sinks; of a sub-graph its inner sinks and (see the `fix:`
+commit) its leaves. -/
+def expandFin (out : List Node) (sinks : List XNode) : Except Err Graph :=
+  .ok { nodes := out,
+        sinks := sinks.flatMap fun t =>
+          match t with
+          | .node i => [i]
+          | .sub sg => sg.leaves.map (·.2) ++ sg.innerSinks }
+
+def expandGraph (ex : Node → Option Expansion) (g : Graph) : Except Err Graph :=
+  transform (expander ex) expandFin [] g
+
+/-! ## fuse.py -/
+
+/-- A fusion callback, restricted to callbacks that (a) look only at the two nodes they are given
+(name, outputs, payload, inputs) and (b) answer with a FRESH node (not one of their arguments).
+`func parent parent_out current current_in`. -/
+abbrev FuseFunc := Node → Name → Node → Name → Option Node
+
+/-- State of `_FuseTransformer`.  `out`: every node object in existence (topologically ordered);
+`cnt`: `self.counter`, per object; `orig`: where the ORIGINAL object of each input node lives.  An
+input node that is replaced by a fused node keeps existing as a (stale) object with its original
+inputs — the callback is handed it as `current` and may take over its inputs. -/
+structure FuseSt where
+  out : List Node := []
+  cnt : List Nat := []
+  orig : List Nat := []
+deriving Repr
+
+/-- `Counter(isrc.parent for node in graph.nodes() for isrc in node.inputs.values())`, by node index -/
+def countEdges (ns : List Node) : List Nat :=
+  (List.range ns.length).map fun i => (ns.flatMap fun n => n.inputs.filter fun x => x.2.1 == i).length
+
+/-- the loop over `inputs` in `_FuseTransformer.node` -/
+def fuseLoop (func : FuseFunc) (s : FuseSt) : List (Name × Ref) → Node × Bool → Node × Bool
+  | [], acc => acc
+  | x :: rest, acc =>
+    if s.cnt.getD x.2.1 0 > 1 then fuseLoop func s rest acc            -- `self.counter[isrc.parent] > 1`
+    else
+      match s.out[x.2.1]? with
+      | none => fuseLoop func s rest acc
+      | some parent =>
+        match func parent x.2.2 acc.1 x.1 with
+        | none => fuseLoop func s rest acc
+        | some fusedNode => fuseLoop func s rest (fusedNode, true)
+
+/-- `_FuseTransformer.node` -/
+def fuseNode (func : FuseFunc) (counts : List Nat) (s : FuseSt) (n : Node) (ins : List (Name × Ref)) :
+    Except Err (FuseSt × Nat) :=
+  let c := counts.getD s.orig.length 0
+  let self : Node := { n with inputs := n.inputs.map fun x => (x.1, (s.orig.getD x.2.1 0, x.2.2)) }
+  let r := fuseLoop func s ins (self, false)
+  if r.2 then
+    -- `self.counter[result] = self.counter[node]`; the original object stays behind with its old inputs
+    .ok ({ out := s.out ++ [self, r.1], cnt := s.cnt ++ [c, c], orig := s.orig ++ [s.out.length] }, s.out.length + 1)
+  else
+    -- `result.inputs = inputs` (in place)
+    .ok ({ out := s.out ++ [{ n with inputs := ins }], cnt := s.cnt ++ [c], orig := s.orig ++ [s.out.length] }, s.out.length)
+
+def fuser (func : FuseFunc) (counts : List Nat) : Transformer FuseSt Nat Ref where
+  node := some (fuseNode func counts)
+  output := fun s t o => nodeOutput s.out t o
+
+def fuseGraph (func : FuseFunc) (g : Graph) : Except Err Graph :=
+  transform (fuser func (countEdges g.nodes)) (fun s sinks => .ok { nodes := s.out, sinks := sinks }) {} g
+
+/-- The callback used by the harness ("inline the parent"): the fused node keeps the current node's
+other inputs under their names, takes over the parent's inputs as `<cin>.<name>`, has the current
+node's outputs and a `fused` payload.  `accept` decides which pairs are fused; a clash of input
+names is declined. -/
+def inlineFuse (accept : Node → Name → Node → Name → Bool) : FuseFunc := fun parent pout cur cin =>
+  let kept := cur.inputs.filter fun x => x.1 != cin
+  let taken := parent.inputs.map fun x => (cin ++ ['.'] ++ x.1, x.2)
+  if !accept parent pout cur cin then none
+  else if !(cur.inputs.any fun x => x.1 == cin) then none
+  else if taken.any (fun x => kept.any fun y => y.1 == x.1) then none
+  else some { name := cur.name ++ ['+'] ++ parent.name, outputs := cur.outputs,
+              payload := .fused cur.payload cin parent.payload pout (parent.inputs.map (·.1)) parent.outputs,
+              inputs := kept ++ taken }
 
 end EkwVerif.Graph
